@@ -633,13 +633,35 @@ func checkJoin(p *Program, r *Report, s goSite, key string) {
 	spawnLoop := innermostLoop(sloops, s.g.Block())
 	var recvLoop *Loop
 	var recvIns *ssa.UnOp
+	// receives on the done channel: in the join loop, and possibly one inside the spawn loop (a limit on the number of
+	// goroutines in flight: wait for one to finish before starting the next)
+	var spawnRecvs []*ssa.UnOp
+	nJoinRecvs := 0
 	for _, rc := range recvsIn(sp) {
 		if chanCellOf(rc.X) == parentCell {
-			if l := innermostLoop(sloops, rc.Block()); l != nil {
+			l := innermostLoop(sloops, rc.Block())
+			if l != nil && spawnLoop != nil && (l.Header == spawnLoop.Header || l.Blocks[s.g.Block()]) {
+				spawnRecvs = append(spawnRecvs, rc)
+				continue
+			}
+			if l != nil {
 				recvLoop = l
+				recvIns = rc
+				nJoinRecvs++
+			} else if canReach(s.g, rc) {
+				nJoinRecvs++ // a receive outside any loop also takes a completion
 				recvIns = rc
 			}
 		}
+	}
+	if nJoinRecvs > 1 {
+		r.Undecided("R05.2", key+":join-shape", p.Pos(recvIns.Pos()), "completions are received at more than one place after the spawn loop; counted join not recognised")
+		return
+	}
+	if recvLoop == nil && len(spawnRecvs) > 0 {
+		recvIns = spawnRecvs[0]
+		r.Undecided("R05.2", key+":join-shape", p.Pos(recvIns.Pos()), "receive happens inside the spawn loop; counted join not recognised")
+		return
 	}
 	if recvLoop == nil {
 		r.Fail("R05.2", key+":no-join", p.Pos(s.g.Pos()), "spawner has no receive loop on the goroutines' done channel: it may return while goroutines still run")
@@ -670,6 +692,41 @@ func checkJoin(p *Program, r *Report, s goSite, key string) {
 			return
 		}
 	}
+	// the join loop is left only by its counting condition(s): the header's `k < B`, and at most one further
+	// `k < K` of a compound condition (then it runs min(B, K) times)
+	var joinCap ssa.Value
+	for b := range recvLoop.Blocks {
+		if b == recvLoop.Header {
+			continue
+		}
+		for si, sc := range b.Succs {
+			if recvLoop.Blocks[sc] {
+				continue
+			}
+			iff, ok := b.Instrs[len(b.Instrs)-1].(*ssa.If)
+			var bo *ssa.BinOp
+			if ok {
+				bo, _ = iff.Cond.(*ssa.BinOp)
+			}
+			hphi, _ := func() (*ssa.Phi, bool) {
+				hi, ok := recvLoop.Header.Instrs[len(recvLoop.Header.Instrs)-1].(*ssa.If)
+				if !ok {
+					return nil, false
+				}
+				hb, ok := hi.Cond.(*ssa.BinOp)
+				if !ok {
+					return nil, false
+				}
+				ph, ok := hb.X.(*ssa.Phi)
+				return ph, ok
+			}()
+			if bo == nil || bo.Op != token.LSS || si != 1 || hphi == nil || bo.X != ssa.Value(hphi) || joinCap != nil || instrDominates(recvIns, iff) {
+				r.Undecided("R05.2", key+":join-exit", p.Pos(recvIns.Pos()), "the join loop can be left otherwise than by its counting condition: the number of completions received is not determined")
+				return
+			}
+			joinCap = bo.Y
+		}
+	}
 	// trip counts
 	rb, rwhy := loopBound(recvLoop)
 	if rb == nil && rwhy == "loop variable does not start at 0" {
@@ -686,6 +743,62 @@ func checkJoin(p *Program, r *Report, s goSite, key string) {
 		if spawnLoop.Blocks[b] && !s.g.Block().Dominates(b) {
 			goEveryIter = false
 		}
+	}
+	if len(spawnRecvs) > 0 || joinCap != nil {
+		// in-flight limit: while spawning, one completion is taken before each start from the K-th on — (n−K)⁺ in all —
+		// and min(n, K) after the loop: together n
+		why := ""
+		var skip ssa.Value
+		plusOne := false
+		switch {
+		case sb == nil || !goEveryIter || !sameValue(sb, rb):
+			why = "the join loop does not count up to the number of goroutines started"
+		case len(spawnRecvs) != 1 || joinCap == nil:
+			why = "a limit on the goroutines in flight needs exactly one receive inside the spawn loop and a join loop capped by the same limit"
+		default:
+			rc := spawnRecvs[0]
+			sphi, _, _, okc := countingLoop(spawnLoop)
+			if !okc || instrDominates(s.g, rc) {
+				why = "the receive inside the spawn loop does not come before the go statement of a counting loop"
+				break
+			}
+			for _, g := range guardsAt(rc.Block()) {
+				bo, ok := g.Cond.(*ssa.BinOp)
+				if !ok || bo.X != ssa.Value(sphi) || !spawnLoop.Blocks[rc.Block()] {
+					continue
+				}
+				switch {
+				case bo.Op == token.GEQ && g.Val, bo.Op == token.LSS && !g.Val:
+					skip = bo.Y
+				case bo.Op == token.GTR && g.Val, bo.Op == token.LEQ && !g.Val:
+					skip, plusOne = bo.Y, true
+				}
+			}
+			if skip == nil {
+				why = "the receive inside the spawn loop is not guarded by a comparison of the spawn counter with the limit"
+				break
+			}
+			ks, okS := constInt(skip)
+			kc, okC := constInt(joinCap)
+			switch {
+			case okS && okC:
+				if plusOne {
+					ks++
+				}
+				if ks != kc {
+					why = fmt.Sprintf("while spawning, a completion is taken before each start from index %d on, but the join loop takes min(n, %d): for n > %d one goroutine is never joined (or one receive too many blocks forever)", ks, kc, kc)
+				}
+			case !plusOne && sameValue(skip, joinCap):
+			default:
+				why = "the limit tested inside the spawn loop and the cap of the join loop are not provably the same number"
+			}
+		}
+		if why == "" {
+			r.OK("R05.2", fmt.Sprintf("%s: one send per path; in-flight limit: (n−K)⁺ completions taken while spawning + min(n, K) after = n", key))
+		} else {
+			r.Fail("R05.2", key+":count-mismatch", p.Pos(recvIns.Pos()), "number of receives does not provably equal the number of goroutines started: "+why)
+		}
+		return
 	}
 	if sb != nil && goEveryIter && sameValue(sb, rb) {
 		r.OK("R05.2", fmt.Sprintf("%s: one send per path; spawner receives %s times = spawn loop bound", key, rb.Name()))
